@@ -140,11 +140,20 @@ class Counter(object):
     def tick(self, tag, x):
         self.n += 1
         if self.fail_at and self.n == self.fail_at:
+            if self.exc is ReturnsNone:
+                return True
             raise self.exc("injected failure at evaluation %d (%s at %r)" % (self.n, tag, x))
+        return False
 
 
 class ProbeFault(ArithmeticError):
     pass
+
+
+class ReturnsNone(Exception):
+    """not raised: stands for a user function that RETURNS something no table can hold - a complex number, as Python's ** gives
+    for a negative base and a fractional exponent (pow(as.polynomial 3 -1, as.constant 0.5) beyond r = 3) - so that the failure
+    surfaces only when the writer formats the value, possibly long after the evaluation"""
 
 
 # a user function may fail with any exception: the kinds below are what look-up tables, generators, dictionaries and arithmetic
@@ -165,7 +174,8 @@ class PyFn(object):
             d2 = d1.deriv()
 
             def deriv(r, _d=d1):
-                self.counter.tick(self.tag + " deriv", r)
+                if self.counter.tick(self.tag + " deriv", r):
+                    return complex(0.5, 1.5)
                 return _d.fl(r)
 
             def deriv2(r, _d=d2):
@@ -175,7 +185,8 @@ class PyFn(object):
 
     def __call__(self, r):
         if not self.zero:
-            self.counter.tick(self.tag, r)
+            if self.counter.tick(self.tag, r):
+                return complex(0.5, 1.5)
         if self.counter.earlier_model:
             return self.poly.fl(r) + 1.0
         return self.poly.fl(r)
@@ -245,7 +256,7 @@ def render_ini(ctx, target_spelling=None, bad=None):
 
     def IP(fn, flavour="analytic"):
         if bad is not None and fnkey(fn) == fnkey(bad[0]):
-            return ini_poly(probe(fn), flavour, lim=bad[1], form={"py": "pfbad", "native": "pfbadn", "nativelog": "pfbadl"}[bad[2] if len(bad) > 2 else "py"])
+            return ini_poly(probe(fn), flavour, lim=bad[1], form={"py": "pfbad", "native": "pfbadn", "nativelog": "pfbadl", "nested": "pfbadm"}[bad[2] if len(bad) > 2 else "py"])
         return head + ini_poly(probe(fn), flavour)
     tgt = target_spelling or m["tgt"]
     L = ctx.L
@@ -257,7 +268,10 @@ def render_ini(ctx, target_spelling=None, bad=None):
         out += ["[Potential-Form]", "pf(r, a, b, c) = a + b*r + c*r^2",
                 "pfbad(r, a, b, c, lim) = a + b*r + c*r^2 + (pymath.sqrt(lim - r) - pymath.sqrt(lim - r))",
                 "pfbadn(r, a, b, c, lim) = a + b*r + c*r^2 + (sqrt(lim - r) - sqrt(lim - r))",
-                "pfbadl(r, a, b, c, lim) = a + b*r + c*r^2 + (log(lim - r) - log(lim - r))", ""]
+                "pfbadl(r, a, b, c, lim) = a + b*r + c*r^2 + (log(lim - r) - log(lim - r))",
+                # the failing form is called from another form, inside a construct that would absorb a not-a-number (max / min)
+                "pfinner(r, lim) = sqrt(lim - r) - sqrt(lim - r)",
+                "pfbadm(r, a, b, c, lim) = a + b*r + c*r^2 + min(0, max(0, pfinner(r, lim)))", ""]
     pairs = ["%s-%s : %s" % (L(a), L(b), IP(pair_fn(a, b), ctx.flavour)) for a, b in m["pots"]]
     if ctx.rev:
         pairs.reverse()
@@ -281,6 +295,11 @@ def render_ini(ctx, target_spelling=None, bad=None):
         sp = []
         for a in m["els"]:
             sp += species_meta(ctx, a)[1]
+        if (ctx.idx // 2) % 3 == 2:
+            # the entries of one species need not be next to each other (written property by property)
+            sp.sort(key=lambda ln: (ln.split(".", 1)[1].split(":")[0].strip(), ln))
+        elif (ctx.idx // 2) % 3 == 1:
+            sp = sp[::2] + sp[1::2]
         if sp:
             out += ["[Species]"] + sp + [""]
     else:
@@ -464,8 +483,9 @@ def make_writer(ctx, route, counter):
         # the header's fifth number may be given by the caller (here: three quarters of the tabulated range); the arrays still hold
         # all Nr values
         kw = dict(cutoff=0.75 * (nr - 1) * dr) if ctx.idx % 3 == 1 else {}
+        ctx.given_cutoff = kw.get("cutoff") if tgt in ("setfl", "setfl_fs") else None
         f = {"setfl": lambda sink: P.writeSetFL(nrho, drho, nr, dr, eams, pots, sink, comments, **kw),
-             "setfl_fs": lambda sink: P.writeSetFLFinnisSinclair(nrho, drho, nr, dr, eams, pots, sink, comments),
+             "setfl_fs": lambda sink: P.writeSetFLFinnisSinclair(nrho, drho, nr, dr, eams, pots, sink, comments, **kw),
              "DL_POLY_EAM": lambda sink: P.writeTABEAM(nrho, drho, nr, dr, eams, pots, sink, "title"),
              "DL_POLY_EAM_fs": lambda sink: P.writeTABEAMFinnisSinclair(nrho, drho, nr, dr, eams, pots, sink, "title"),
              "funcfl": lambda sink: P.writeFuncFL(nrho, drho, nr, dr, eams, pots, sink, "title")}
@@ -510,6 +530,16 @@ def execute(ctx, route, fail_at=0, spelling=None, workdir=None, bad=None, preexi
                     res["data2"] = sink2.value()
                 except Exception as e:
                     res["data2"] = "raised %s: %s" % (type(e).__name__, str(e)[:160])
+                if not binary:
+                    # the destination need not be empty (a comment header written first, several tables into one stream): the bytes
+                    # this write adds are the bytes it writes into an empty stream
+                    sink4 = StringSink()
+                    sink4.write("# tables of model 1\n")
+                    try:
+                        w(sink4)
+                        res["data4"] = sink4.value()[len("# tables of model 1\n"):]
+                    except Exception as e:
+                        res["data4"] = "raised %s: %s" % (type(e).__name__, str(e)[:160])
                 if binary:
                     # the Excel tabulations also offer the workbook itself (.workbook): after writing it holds what was written
                     try:
@@ -803,6 +833,13 @@ def cmp_setfl(c, plan, text, kind, cases_index):
     c.num("grid-line", f["dr"], ctx.dr(), what="dr")
     c.digits("grid-line", f["drho"], ctx.drho(), F(1, 10 ** 11), what="drho")
     c.digits("grid-line", f["dr"], ctx.dr(), F(1, 10 ** 11), what="dr")
+    if c.route == "func" and getattr(ctx, "given_cutoff", None):
+        # the caller of the function route gave the header's cutoff: that is the number the consumer must find
+        try:
+            if abs(float(f["cutoff"]) - ctx.given_cutoff) > 1e-9 * abs(ctx.given_cutoff):
+                c.fail("header-cutoff", "the caller gave cutoff=%r, the header says %s" % (ctx.given_cutoff, f["cutoff"]))
+        except (KeyError, ValueError):
+            c.fail("header-cutoff", "header cutoff unreadable")
     if kind == "fs" and c.route in ("class", "ini", "cli"):
         # C04's second formulation (densities of a cluster by the consumer's rules): the consumer counts neighbours up to the header's
         # cutoff, so it must span the tabulated separations (the writers use nr*dr unless the caller passes a value)
@@ -1042,6 +1079,9 @@ def _replay_one(job):
                         if not same:
                             r["bad"] = [("second-write", "write() called a second time on the same tabulation object %s" % (
                                 d2[:120] if isinstance(d2, str) and d2.startswith(("raised", "unreadable")) else "gives a different table than the first time"))]
+                    if "data4" in res and not r["bad"] and res["data4"] != res["data"]:
+                        r["bad"] = [("stream-position", "written into a stream that already holds a comment line, write() %s" % (
+                            res["data4"][:120] if res["data4"].startswith("raised") else "adds other bytes than it writes into an empty stream"))]
                     if "data3" in res and not r["bad"]:
                         d3 = res["data3"]
                         try:
@@ -1259,7 +1299,10 @@ def _fault_one(idx):
             N = counter.n
             out["n_measured"][route] = N
             for k in range(1, N + 1):
-                counter = Counter(k, FAULT_KINDS[(idx + k) % len(FAULT_KINDS)])
+                # a value no number format accepts: only for the writers that format with '%' (GULP's str.format prints a complex
+                # number, a spreadsheet library decides for itself - no failure happens there, nothing is asserted)
+                kinds = FAULT_KINDS + ((ReturnsNone,) if tgt not in BINARY and tgt != "GULP" else ())
+                counter = Counter(k, kinds[(idx + k) % len(kinds)])
                 w = make_writer(ctx, route, counter)
                 sink = Sink(binary) if binary or (idx + k) % 2 else StringSink()
                 raised = False
@@ -1295,12 +1338,12 @@ def _fault_one(idx):
                 for route in ("ini", "cli"):
                     if route not in ROUTES[tgt]:
                         continue
-                    how = ["py", "native", "py", "nativelog"][(idx + i + (route == "cli")) % 4]
+                    how = ["py", "native", "nested", "nativelog", "py", "nested"][(idx + i + (route == "cli")) % 6]
                     res = execute(ctx, route, bad=(fn, lim, how), preexisting="OLD TABLE\n" if route == "cli" else None)
                     out["runs"] += 1
                     out["ks"] += 1
                     where = "%s at grid index %d, %s" % (fnkey(fn), i, {"py": "pymath.sqrt of a negative number", "native": "sqrt of a negative number",
-                                                                        "nativelog": "log of a negative number"}[how])
+                                                                        "nativelog": "log of a negative number", "nested": "sqrt of a negative number in a form called inside max() of another form"}[how])
                     if res["outcome"] != "raised":
                         bad(route, "fault-swallowed", "formula outside its domain (%s) but the run ended normally" % where, dict(ini=res.get("ini")))
                     elif res["data"]:
